@@ -2,7 +2,7 @@
 # SPDX-License-Identifier: LGPL-3.0-only
 from enum import Enum, auto
 
-from lark import Transformer, Token
+from lark import Transformer, Token, Tree
 
 from rzilcompiler.Transformer.Hybrids.GCCStmtDeclExpr import GCCStmtDeclExpr
 from rzilcompiler.Transformer.Pures.Macro import Macro, MacroInvocation
@@ -182,12 +182,13 @@ class RZILTransformer(Transformer):
             for hid in [k for k in self.il_ops_holder.hybrid_effect_dict.keys()]
         ]
         # Assign all effects without parent in the AST to the final instruction sequence.
+        # Sequence() rejects results of grammar rules without handler (lark Trees).
         instruction_sequence = Sequence(
             f"instruction_sequence",
             [
                 op
                 for op in self.imm_set_effect_list + left_hybrids + flatten_list(items)
-                if isinstance(op, Effect)
+                if isinstance(op, (Effect, Tree))
             ],
         )
 
